@@ -76,6 +76,10 @@ UNIT_TRUSTED["table_policy"] = [
     "NOT under contract: the regular-expression members of an as-path set (known finding F-C14-4), prefix / neighbour sets with the ALL option (rejected by add_statement), the byte layout of community attributes, and the in-use guards of add_defined_set (merge), add_statement / add_policy (existing object) and the daemon-side per-peer checks",
 ]
 
+UNIT_TRUSTED["table_idalloc"] = [
+    "IdAllocator::{new,alloc,dealloc} wrapped in place; rule R21 turns `for (i, word) in self.bits.iter_mut().enumerate()` into an index loop that borrows one element per round through vx_vec_index_mut (ASSUMED: `&mut v[i]` yields the element at i and touches nothing else, what IndexMut for Vec promises); u64::trailing_ones through vstd's axiom_u64_trailing_ones (ASSUMED by vstd); bit-level facts by Verus's bit_vector back end; the debug_assert!s of the code are proof obligations (Verus treats a reachable panic as a failed precondition). PRECONDITIONS not checked at call sites (Table mutators, note T): shard index < 256, some local id below 2^24 is free (the code's own documented limit of 16M destinations per shard), dealloc is given an id whose word exists",
+]
+
 UNIT_TRUSTED["table_rslocal"] = [
     "Table::rs_local_paths wrapped in place; RibEntry's Ord enters as an uninterpreted total comparison rib_cmp (its agreement with the property's decision order is what unit table_cmp proves); `iter().filter(p).max()` / `.min()` outlined as one helper whose last arguments say which method the code names and, as a ghost value, the predicate the closure computes (checked at the call site) — ASSUMED std contracts: max returns an element no other yielded element exceeds, min one that exceeds no other; `Option::into_iter().map(f).collect()` is a verified helper; Source::is_rs_client / remote_addr / RibEntry::is_filtered uninterpreted; Table, Source, RpkiValidation opaque",
 ]
@@ -160,16 +164,16 @@ UNIT_TRUSTED["packet_nlri"] = [
 ]
 
 # minimum number of functions that must produce obligations / of must-fail twins that must run
-FLOORS = {"daemon_fsm": 30, "daemon_gr": 4, "daemon_peer_tx": 9, "table_cmp": 20, "packet_validate": 1, "packet_parse": 1, "table_rpki": 5, "table_policy": 13, "daemon_export": 11, "packet_bmp": 6, "packet_mrt": 8, "packet_aspath": 11, "packet_encode": 4, "packet_nlri": 22, "daemon_restart": 7, "packet_negotiate": 1, "table_rslocal": 1, "daemon_peer_cfg": 2, "daemon_gr_neg": 2, "daemon_mrt_conv": 3}
-TWIN_FLOORS = {"daemon_fsm": 8, "daemon_gr": 3, "daemon_peer_tx": 2, "table_cmp": 4, "packet_validate": 1, "packet_parse": 1, "table_rpki": 1, "table_policy": 1, "daemon_export": 1, "packet_bmp": 1, "packet_mrt": 1, "packet_aspath": 1, "packet_encode": 2, "packet_nlri": 1, "daemon_restart": 1, "packet_negotiate": 0, "table_rslocal": 0, "daemon_peer_cfg": 0, "daemon_gr_neg": 0, "daemon_mrt_conv": 0}
+FLOORS = {"daemon_fsm": 30, "daemon_gr": 4, "daemon_peer_tx": 9, "table_cmp": 20, "packet_validate": 1, "packet_parse": 1, "table_rpki": 5, "table_policy": 13, "daemon_export": 11, "packet_bmp": 6, "packet_mrt": 8, "packet_aspath": 11, "packet_encode": 4, "packet_nlri": 22, "daemon_restart": 7, "packet_negotiate": 1, "table_rslocal": 1, "daemon_peer_cfg": 2, "daemon_gr_neg": 2, "daemon_mrt_conv": 3, "table_idalloc": 3}
+TWIN_FLOORS = {"daemon_fsm": 8, "daemon_gr": 3, "daemon_peer_tx": 2, "table_cmp": 4, "packet_validate": 1, "packet_parse": 1, "table_rpki": 1, "table_policy": 1, "daemon_export": 1, "packet_bmp": 1, "packet_mrt": 1, "packet_aspath": 1, "packet_encode": 2, "packet_nlri": 1, "daemon_restart": 1, "packet_negotiate": 0, "table_rslocal": 0, "daemon_peer_cfg": 0, "daemon_gr_neg": 0, "daemon_mrt_conv": 0, "table_idalloc": 3}
 
 PLAN = {
     "C01": {"verus": ["daemon_peer_tx", "daemon_export"], "level": "proof",
             # of the export unit, C01 looks at the diff of the exportable window against what was sent
             "fn_filter": {"daemon_export": ["process_nlri_change"]}},
     "C05": {"verus": ["packet_validate", "packet_parse"], "kani": ["c05_canonical_flags_table"] + ["c05_attr_decode_" + x for x in ("origin", "med", "local_pref", "atomic_aggregate", "aggregator", "community", "originator_id", "cluster_list", "ext_community", "as4_aggregator", "large_community")] + ["c05_attr_decode_as_path_len%d" % n for n in (0, 6, 7, 8, 12)] + ["c05_attr_decode_as4_path_len%d" % n for n in (6, 7, 12)], "level": "proof"},
-    "C06": {"verus": [], "kani": ["c06_id_alloc_unique", "c06_id_dealloc_exact", "c06_id_alloc_mustfail"], "level": "other",
-            "explanation": "BOUNDED stand-in, not a proof: Kani/CBMC harnesses on the real IdAllocator::{alloc,dealloc} with <= 4 bitmap words (256 live ids per shard), every word over its full 64-bit domain, under the representation invariant 'no trailing zero word': alloc returns the least free id, which no live prefix holds, marks exactly it live and keeps the shard index in bits 31..24; dealloc frees exactly its id and restores the invariant. Only the identifier-uniqueness clause of C06 is addressed; the change-stream fold and the end-of-deferral clause live in Table::{insert,remove,end_deferral,...} (note T) and are not covered."},
+    "C06": {"verus": ["table_idalloc"], "kani": ["c06_id_alloc_unique", "c06_id_dealloc_exact", "c06_id_alloc_mustfail"], "level": "proof",
+            "explanation": "Identifier clause of C06 only. Verus (unbounded: any number of bitmap words, every word over its full 64-bit domain) on the real IdAllocator::{new,alloc,dealloc} wrapped in place: the bitmap is viewed as the set of live local ids; alloc returns an id that no live prefix of the shard holds, whose bits 31..24 are the shard index, and makes exactly that id live (whole-view postcondition: every other id keeps its state); dealloc frees exactly its id; a fresh allocator has no live id; the code's debug_assert!s (24-bit local id) are discharged as obligations under the stated precondition that a local id below 2^24 is free. The three Kani/CBMC harnesses (<= 4 bitmap words, BOUNDED, counted as bounded stand-ins and not as proof) stay as the source of concrete counterexamples for the replay. Which free id is chosen and whether the bitmap is trimmed is not asserted (the property does not ask for it). NOT covered: that Table::{insert,remove,...} pair alloc / dealloc with the life of a prefix, the change-stream fold and the end-of-deferral clause (Table mutators, note T)."},
     "C07": {"verus": ["daemon_fsm", "packet_parse"], "level": "proof"},
     "C08": {"verus": ["daemon_fsm"], "level": "proof"},
     "C09": {"verus": ["daemon_export", "packet_aspath"], "level": "proof",
